@@ -11,7 +11,7 @@ for d in sorted((V / 'seeded').iterdir()):
     what = (m.get('what_it_breaks') or '').replace('\n', ' ').replace('|', '/')
     needs = (m.get('needs_to_manifest') or '').replace('\n', ' ').replace('|', '/')
     det = (m.get('detection') or '').replace('\n', ' ').replace('|', '/')
-    first = 'missed' if re.search(r'first run: (reported, but for the wrong reason|MISSED|only|exit 2|missed)', det, re.I) else 'caught'
+    first = 'missed' if re.search(r'first run: (reported, but for the wrong reason|MISSED|only|exit 2|missed)|MISSED (by C\d\d )?on the first run', det, re.I) else 'caught'
     sw = m.get('last_sweep') or {}
     now = ('exit %s: %s' % (sw.get('exit'), ', '.join(sw.get('reported_as') or [])[:120])) if sw else '(not swept yet)'
     def cut(t, n):
